@@ -84,7 +84,7 @@ def h(t, part):
     # ---- one operation from the arbitrary state (plus, in history mode, more) -----------------------------------
     OPS = [('enter', c, r) for c in range(3) for r in range(3)] + [('leave', c, r) for c in range(3) for r in range(3)] + \
           [('close', r) for r in range(4)] + [('disconnect', c) for c in range(3)] + \
-          [('emit', to, sk) for to in range(7) for sk in range(3)] + \
+          [('emit', to, sk) for to in range(8) for sk in range(3)] + \
           [('unknown-namespace', k) for k in range(3)] + [('other-namespace', k) for k in range(2)]
     if 'first' in part:
         t.force([part['first']])
@@ -119,7 +119,7 @@ def h(t, part):
                     model[r].discard(c)
                 recipients()
         elif o[0] == 'emit':
-            to = [None, 'r1', 7, sids[0], ['r1', 7], [sids[0], 'r1'], [7, 'never-created']][o[1]]
+            to = [None, 'r1', 7, sids[0], ['r1', 7], [sids[0], 'r1'], [7, 'never-created'], ['r1', 'never-created', 7]][o[1]]
             skip = [None, sids[1], [sids[0], sids[2]]][o[2]]
             r = probe(to, skip, tag)
             if r:
@@ -143,7 +143,7 @@ def h(t, part):
         if any(stray.values()):
             return Fail('rooms:unexpected-delivery', '%r delivered %r' % (o, stray))
     # ---- observations: list emits first (they must not disturb anything), then single rooms, then rooms() -------
-    for to, skip in ([['r1', 7], None], [[sids[0], 'r1'], sids[1]], [None, None], ['r1', None], [7, sids[1]],
+    for to, skip in ([['r1', 7], None], [[sids[0], 'r1'], sids[1]], [['r1', 'never-created', 7], None], [None, None], ['r1', None], [7, sids[1]],
                      [sids[0], None], [sids[1], None], [sids[0], sids[0]]):
         r = probe(to, skip, 'final')
         if r:
@@ -168,7 +168,7 @@ def h(t, part):
     return None
 
 
-NOPS = 9 + 9 + 4 + 3 + 21 + 3 + 2
+NOPS = 9 + 9 + 4 + 3 + 24 + 3 + 2
 
 
 def parts(tier):
@@ -192,8 +192,8 @@ META = dict(
                 'Every reachable membership state over this universe is a pre-state, so histories of any length over it '
                 'are covered as far as the observations are functions of the state.',
     bounds={'quick': '3 clients x 3 rooms (string, integer, session-id-named) on / (+ client 1 on /a): 2^7 pre-states (incl. client 0 having left its personal room) x '
-                     '2 x %d operations (enter, leave, close incl. unknown room, disconnect by 3 causes, emit with 7 '
-                     'targets x 3 skip_sid forms, operations on an unknown namespace and on /a) x 8 probe emits' % NOPS,
+                     '2 x %d operations (enter, leave, close incl. unknown room, disconnect by 3 causes, emit with 8 '
+                     'targets x 3 skip_sid forms, operations on an unknown namespace and on /a) x 9 probe emits' % NOPS,
             'thorough': 'the same pre-states, two consecutive operations'},
     outside=['empty-list and falsy targets (broadcast by definition)', 'tuple room names', 'more than 3 clients / 3 rooms',
              'pub/sub managers (C07)'],
